@@ -40,7 +40,7 @@ ASSUMPTIONS = [
   'with overwrite=True a crash in the middle of removing several newer steps may leave an intermediate newer step as latest; the oracle then requires latest to be a complete previously committed step (narrow reading, see DESIGN.md)',
   'save_checkpoint_multiprocess is covered on one host without multi-process arrays only; multi-host arrays, GCS paths, Orbax AsyncCheckpointer are not covered',
 ]
-PROBES = ['async_save_failed_with_ioerror', 'entry_multiprocess', 'legacy_debris_in_orbax_dir', 'source_mutated_after_async_save', 'restore_by_path', 'orbax_histories', 'half_deleted_old_step', 'leftover_tmp_after_crash', 'crash_after_commit', 'crash_before_commit', 'retry_rejected_committed', 'overwrite_removed_newer', 'keep_every_retained', 'chunked_leaf', 'async_latest_in_flight', 'sweep_points', 'policy_error_expected', 'torn_write', 'ioerror_runs']
+PROBES = ['async_save_failed_with_ioerror', 'entry_multiprocess', 'legacy_debris_in_orbax_dir', 'source_mutated_after_async_save', 'restore_by_path', 'orbax_histories', 'leftover_tmp_after_crash', 'crash_after_commit', 'crash_before_commit', 'retry_rejected_committed', 'overwrite_removed_newer', 'keep_every_retained', 'chunked_leaf', 'async_latest_in_flight', 'sweep_points', 'policy_error_expected', 'torn_write', 'ioerror_runs']
 
 GOOD_PREFIXES = ['checkpoint_', 'ckpt', 'a_b_', 'run1_', 'model.x']
 BAD_PREFIXES = ['m-', 'v2.', 'run1']  # end in '-', '.', digit: were glued to the step before fix 943634b
